@@ -216,7 +216,7 @@ thread_local! {
 /// Run one top-level operation under an environment configuration.  The
 /// schedule controller is installed for the duration and its statistics are
 /// folded into the thread's `SCHED` accumulator.
-pub fn under<R>(env: &EnvCfg, f: impl FnOnce() -> R) -> R {
+pub fn under<R: Send>(env: &EnvCfg, f: impl FnOnce() -> R + Send) -> R {
     set_hash_stream(env.hash_seed ^ 0xA5A5_5A5A_1234_4321);
     #[cfg(feature = "engine-std")]
     {
@@ -248,7 +248,15 @@ pub fn under<R>(env: &EnvCfg, f: impl FnOnce() -> R) -> R {
         }
         r
     }
-    #[cfg(not(feature = "engine-std"))]
+    #[cfg(feature = "engine-real")]
+    {
+        // the real work-stealing pool: only its size is ours to choose
+        let t = if env.threads == 0 { 1 } else { env.threads.min(33) };
+        let pool = rayon::ThreadPoolBuilder::new().num_threads(t).build().expect("pool");
+        SCHED.with(|s| *s.borrow_mut().pools.entry(t).or_insert(0) += 1);
+        pool.install(f)
+    }
+    #[cfg(not(any(feature = "engine-std", feature = "engine-real")))]
     {
         f()
     }
